@@ -1,0 +1,15 @@
+//go:build verif
+
+package control
+
+// Contracts for /verif (contract-based deductive verification of this package).
+// Comment-only file: only the lines starting with "//@" are read, by /verif/bin/govc.
+
+// ---------------------------------------------------------------- the database-backed validator (C15)
+
+// a request is accepted only with the key of a known client, and only for a source that is that
+// client's own name or a dataset registered to exactly that client
+//@ func (*Postgres).IsValid
+//@   on return assert key-of-a-known-client: result ==> called((*clientCache).getClientKey) && prevret((*clientCache).getClientKey, 0, 1) && prevret((*clientCache).getClientKey, 0, 0) == key && prevarg((*clientCache).getClientKey, 0, 1) == cid
+//@   on return assert source-belongs-to-that-client: result ==> (called((*clientCache).getClientName) && lastret((*clientCache).getClientName, 1) && lastret((*clientCache).getClientName, 0) == source && lastarg((*clientCache).getClientName, 1) == cid) || (called((*clientCache).getDatasetClientID) && lastret((*clientCache).getDatasetClientID, 1) && lastret((*clientCache).getDatasetClientID, 0) == cid && lastarg((*clientCache).getDatasetClientID, 1) == source)
+//@   modifies everything
